@@ -318,6 +318,99 @@ theorem generated_name_normalised (P : PyRe) (hok : PyReOk P) (key : List Char) 
     rw [hn] at he
     exact normalizeAux_no_ws_run P hok.sp_space d.canonical false pre a b post he
 
+theorem dropWhile_append_keep {α : Type} (p : α → Bool) (a : α) (ha : p a = false) :
+    ∀ xs : List α, (xs ++ [a]).dropWhile p = xs.dropWhile p ++ [a]
+  | [] => by simp [List.dropWhile, ha]
+  | x :: xs => by
+    by_cases hx : p x = true
+    · simp only [List.cons_append, List.dropWhile_cons, hx, if_true]
+      exact dropWhile_append_keep p a ha xs
+    · have hxf : p x = false := by simpa using hx
+      simp [List.dropWhile_cons, hxf]
+
+theorem head_dropWhile_not {α : Type} (p : α → Bool) : ∀ (xs : List α) (c : α), (xs.dropWhile p).head? = some c → p c = false
+  | [], c, h => by simp at h
+  | x :: xs, c, h => by
+    by_cases hx : p x = true
+    · simp only [List.dropWhile_cons, hx, if_true] at h
+      exact head_dropWhile_not p xs c h
+    · have hxf : p x = false := by simpa using hx
+      simp only [List.dropWhile_cons, hxf] at h
+      simp at h
+      rw [← h]; exact hxf
+
+theorem mem_strip (P : PyRe) (l : List Char) (c : Char) (h : c ∈ strip P l) : c ∈ l := by
+  unfold strip rstrip at h
+  have h1 : c ∈ (l.dropWhile P.isSpace).reverse.dropWhile P.isSpace := by simpa using h
+  have h2 : c ∈ (l.dropWhile P.isSpace).reverse := (List.dropWhile_sublist _).subset h1
+  have h3 : c ∈ l.dropWhile P.isSpace := by simpa using h2
+  exact (List.dropWhile_sublist _).subset h3
+
+/-- `strip` leaves no whitespace at either end -/
+theorem strip_edgeOk (P : PyRe) (l : List Char) : edgeOk P (strip P l) = true := by
+  unfold edgeOk strip rstrip
+  generalize hm : l.dropWhile P.isSpace = m
+  have hhead : ∀ c, m.head? = some c → P.isSpace c = false := by
+    intro c hc; rw [← hm] at hc; exact head_dropWhile_not _ l c hc
+  -- last character
+  have hlast : ∀ c, ((m.reverse.dropWhile P.isSpace).reverse).getLast? = some c → P.isSpace c = false := by
+    intro c hc
+    rw [List.getLast?_reverse] at hc
+    exact head_dropWhile_not _ _ c hc
+  -- first character
+  have hfirst : ∀ c, ((m.reverse.dropWhile P.isSpace).reverse).head? = some c → P.isSpace c = false := by
+    intro c hc
+    cases m with
+    | nil => simp at hc
+    | cons a m' =>
+      have ha : P.isSpace a = false := hhead a rfl
+      rw [List.reverse_cons, dropWhile_append_keep _ a ha, List.reverse_append] at hc
+      simp at hc
+      rw [← hc]; exact ha
+  rw [Bool.and_eq_true]
+  constructor
+  · cases hh : ((m.reverse.dropWhile P.isSpace).reverse).head? with
+    | none => rfl
+    | some c => simp [hfirst c hh]
+  · cases hl : ((m.reverse.dropWhile P.isSpace).reverse).getLast? with
+    | none => rfl
+    | some c => simp [hlast c hl]
+
+/-- **Exported display titles fit the line format.** Whatever the title of a definition holds - a directive argument that
+runs over two lines, runs of blanks - the display title `generate_inventory` writes is absent or a non-empty text without
+a line break and without whitespace at either end: one line of the inventory can carry it. -/
+theorem generated_display_fits (P : PyRe) (hok : PyReOk P) (key : List Char) (d : LocalDef) (e : Entry)
+    (h : generateEntry P key d = some e) :
+    e.display = exportTitle P d.title ∧
+    ∀ t, e.display = some t → t ≠ [] ∧ '\n' ∉ t ∧ edgeOk P t = true := by
+  have hd : e.display = exportTitle P d.title := by
+    unfold generateEntry at h
+    split at h
+    · cases h
+    · split at h
+      · cases h
+      · simp only [Option.some.injEq] at h
+        subst h; rfl
+  refine ⟨hd, ?_⟩
+  intro t ht
+  rw [hd] at ht
+  unfold exportTitle at ht
+  simp only at ht
+  split at ht
+  · cases ht
+  · rename_i hne
+    simp only [Option.some.injEq] at ht
+    subst ht
+    refine ⟨hne, ?_, strip_edgeOk P _⟩
+    intro hm
+    have := mem_strip P _ _ hm
+    rcases normalizeAux_mem P d.title false '\n' this with h1 | ⟨_, h2⟩
+    · cases h1
+    · rw [hok.sp_nl] at h2; cases h2
+
+example : exportTitle asciiRe "some\n   thing ".toList = some "some thing".toList := by decide
+example : exportTitle asciiRe " \n ".toList = none := by decide
+
 example : (generateEntry asciiRe "mongodb:data:foo bar".toList
     { canonical := "foo\n   bar".toList, fileid := ["p.txt".toList], title := [], htmlId := "x".toList }).map (·.name)
     = some "foo bar".toList := by decide
